@@ -37,6 +37,9 @@ WRAPPED = """open64 close read write sendfile64 mkdir mkdirat rmdir unlink unlin
 link linkat symlinkat readlinkat readlink stat64 fstat64 fstatat64 access
 ftruncate64 lseek64 scandir64 fts64_open fts64_read fts64_close time malloc
 calloc realloc free strdup realpath""".split()
+# calls that are NOT in the model: interposed all the same, so that they appear in the call log and are crash / fault
+# points when a change introduces them (they are still reported as outside the model, see unknown_externals)
+WRAPPED_EXTRA = """rename renameat fsync fdatasync truncate64 fchmod chmod utimensat""".split()
 # calls of main.c, wrapped by harness/drv_main.c
 WRAPPED_MAIN = """poll mount fanotify_init fanotify_mark setgroups setgid setuid
 getuid getgid getpid getgroups""".split()
@@ -204,7 +207,7 @@ def build_harness(tag, sanitize=False, extra_cflags=()):
             return None, "ld failed: " + r.stdout
         objs.append(o)
     with open(os.path.join(bdir, "syms.txt"), "w") as f:
-        for s in WRAPPED + WRAPPED_MAIN:
+        for s in WRAPPED + WRAPPED_MAIN + WRAPPED_EXTRA:
             f.write("%s __wrap_%s\n" % (s, s))
     srcs = sorted(glob.glob(os.path.join(REPO, "src", "*.c")))
     srcs = [s for s in srcs if os.path.basename(s) != "config-static.c"]
@@ -221,7 +224,7 @@ def build_harness(tag, sanitize=False, extra_cflags=()):
         if o == "main.o":
             # main's calls into the handler go to the driver's recorders (drv_main.c)
             with open(os.path.join(bdir, "syms_main.txt"), "w") as f:
-                for s2 in WRAPPED + WRAPPED_MAIN:
+                for s2 in WRAPPED + WRAPPED_MAIN + WRAPPED_EXTRA:
                     f.write("%s __wrap_%s\n" % (s2, s2))
                 for s2 in ("load_handler", "handle_open_exec", "handle_close_write", "handle_timeout"):
                     f.write("%s __hook_%s\n" % (s2, s2))
@@ -477,6 +480,9 @@ def unknown_externals(bdir):
         if len(t) < 2 or t[-2] not in ("U", "w"):
             continue
         sym = t[-1].split("@")[0]
+        if sym.startswith("__wrap_") and sym[len("__wrap_"):] in WRAPPED_EXTRA:
+            unknown.append("%s (%s)" % (sym[len("__wrap_"):], t[0].split(":")[0]))
+            continue
         if sym in defined or sym.startswith(("__wrap_", "__hook_")) or PURE_EXTERNAL.match(sym):
             continue
         unknown.append("%s (%s)" % (sym, t[0].split(":")[0]))
